@@ -163,6 +163,7 @@ def r5(run):
 RULES = [
     ("R-C09-1", "ephemeral frames never reach the primary-partition insert on any call chain; append still broadcasts them", r1),
     ("R-C09-2", "both read paths drop expired time:N frames before they escape (shared with R-C01-2/3/4)", lambda run: (c01.r2(run), c01.r3(run), c01.r4(run))),
+    ("R-C09-6", "time:N expiry is judged against the clock at decision time in both read paths (shared with R-C08-5)", lambda run: __import__("rules.store_shared", fromlist=["x"]).rule_clock_freshness(run)),
     ("R-C09-3", "TTL::Head(n) is constructed at one site dominated by n >= 1; every TTL reader goes through it", r3),
     ("R-C09-4", "newest-N eviction: Skip<Rev<prefix>> with skip = keep (shared with R-C08-3)", c08.r3),
     ("R-C09-5", "synthetic xs.threshold / xs.pulse frames are built Ephemeral", r5),
